@@ -124,8 +124,9 @@ class CacheFn:
             return bool(vals) and all(self.entry_field(x) == 0 for x in vals)
         return False
 
-    def env(self, *, present: bool, expire: object = None, now: float = 50.0, size: int | None = None, limit: int = 3):
-        """Scenario over the cache state. expire: None (never) or a number compared with `now`."""
+    def env(self, *, present: bool, expire: object = None, now: float = 50.0, size: int | None = None, limit: int = 3, value: object = ...):
+        """Scenario over the cache state. expire: None (never) or a number compared with `now`; value: the cached result
+        (default: some object; None: the wrapped function returned None, which is a result like any other)."""
 
         def f(e: ast.AST):
             if isinstance(e, ast.Call):
@@ -142,7 +143,7 @@ class CacheFn:
             if fld == 1:
                 return expire
             if fld == 0 and present:
-                return _VALUE
+                return _VALUE if value is ... else value
             if isinstance(e, ast.Name) and self.is_direct_entry(e):
                 return _ENTRY if present else None
             return NOVALUE
@@ -286,6 +287,8 @@ def check(an: Analysis) -> None:
         a_args = kc.args[0] if len(kc.args) > 0 else next((k.value for k in kc.keywords if k.arg == "args"), None)
         a_kwds = kc.args[1] if len(kc.args) > 1 else next((k.value for k in kc.keywords if k.arg == "kwds"), None)
         a_typed = kc.args[2] if len(kc.args) > 2 else next((k.value for k in kc.keywords if k.arg == "typed"), None)
+        if isinstance(a_args, ast.Name) and a_args.id != s.va and (sv_ := d.single_value(a_args.id)) is not None:
+            a_args = unwrap(sv_)  # the positional part assembled in a local first
         if not (isinstance(a_typed, ast.Constant) and a_typed.value is True):
             ob1.fail(fi, kc, "the key is not typed: ==-equal arguments of different type (1, 1.0, True) share an entry")
         if not is_name(a_kwds, s.kwa):
@@ -311,8 +314,15 @@ def check(an: Analysis) -> None:
             if isinstance(t, ast.Name):
                 key_names.add(t.id)
 
+        # plain aliases of the key (`key = <result of the inlined key helper>`)
+        for _round in range(3):
+            for x in fi.own_nodes():
+                if isinstance(x, (ast.Assign, ast.AnnAssign)) and getattr(x, "value", None) is not None and isinstance(unwrap(x.value), ast.Name) and unwrap(x.value).id in key_names:
+                    tg = x.targets[0] if isinstance(x, ast.Assign) else x.target
+                    if isinstance(tg, ast.Name) and len([1 for _k, _v in d.defs(fi, tg.id)]) == 1:
+                        key_names.add(tg.id)
         for kn in sorted(key_names):
-            others = [v for _k, v in d.defs(fi, kn) if unwrap(v) is not kc]
+            others = [v for _k, v in d.defs(fi, kn) if unwrap(v) is not kc and not (isinstance(unwrap(v), ast.Name) and unwrap(v).id in key_names)]
             for v in others:
                 ob1.fail(fi, v, f"the key variable `{kn}` is also bound to something else than the _make_key(...) result: on that path entries are shared between calls whose arguments are not equal and type-identical")
 
@@ -385,6 +395,13 @@ def check(an: Analysis) -> None:
             w = g.search([g.entry], lambda n: n in s.fcalls, skip_edge=sc)
             if w is not None:
                 ob3.fail(fi, s.fcalls[0].ast, f"[{label}] the function is called although the key is cached and unexpired", CFG.show_path(w))
+            if not s.is_async:
+                # a cached result that is None / falsy is a result: the hit must not depend on the value (sync forms cache the value itself)
+                for vlabel, v_ in (("None", None), ("0", 0)):
+                    scv = s.sc_from(s.env(present=True, expire=None if "never" in label else 100.0, now=50.0, value=v_)).skip
+                    wv = g.search([g.entry], lambda n: n in s.fcalls, skip_edge=scv)
+                    if wv is not None and w is None:
+                        ob3.fail(fi, s.fcalls[0].ast, f"[{label}, cached result is {vlabel}] the function is called again although its result is cached: the hit test looks at the cached *value* instead of the presence of the entry", CFG.show_path(wv))
             if not s.moves:
                 ob3.fail(fi, None, "a hit never refreshes the entry's recency (move_to_end)")
             else:
